@@ -630,6 +630,10 @@ class Interp:
                 return obj.name
             raise AnalysisError("ABSINT", f"enum attribute {attr} outside fragment", where)
         if isinstance(obj, ModuleRef):
+            if obj.name == "string" and attr in ("ascii_letters", "digits", "ascii_lowercase",
+                                                 "ascii_uppercase", "punctuation", "whitespace"):
+                import string as _string
+                return getattr(_string, attr)
             return ModuleRef(f"{obj.name}.{attr}")
         if isinstance(obj, (str, list, dict, set, tuple)):
             return ("pymethod", obj, attr)
@@ -755,11 +759,8 @@ class Interp:
             seq = list(self.iterate(args[0]))
             key = kwargs.get("key")
             if key is not None:
-                return sorted(seq, key=lambda x: self._apply(key, x))
-            try:
-                return sorted(seq)
-            except TypeError:
-                return sorted(seq, key=lambda x: self.to_str(x))
+                return self._sort([(self._apply(key, x), x) for x in seq], keyed=True)
+            return self._sort(seq, keyed=False)
         if name == "str":
             return self.to_str(args[0]) if args else ""
         if name == "bool":
@@ -797,9 +798,66 @@ class Interp:
             return abs(args[0])
         if name == "dict":
             return dict(*args, **kwargs)
+        if name == "hash":
+            return ("hash", self.hash_key(args[0]))
+        if name == "id":
+            raise AnalysisError("ABSINT", "id() outside fragment", where)
         if name in _BUILTIN_TYPES:
             raise AnalysisError("ABSINT", f"constructor {name} outside fragment", where)
         raise AnalysisError("ABSINT", f"builtin {name} outside fragment", where)
+
+    def hash_key(self, v: Any) -> Any:
+        """Canonical key standing for hash(v): equal keys <=> equal hashes (up to collisions)."""
+        if isinstance(v, OrdInt):
+            return v.v
+        if isinstance(v, (tuple, list)):
+            if isinstance(v, list):
+                raise AbsRaise("TypeError: unhashable type: 'list'")
+            return tuple(self.hash_key(x) for x in v)
+        if isinstance(v, (set, frozenset)):
+            if isinstance(v, set):
+                raise AbsRaise("TypeError: unhashable type: 'set'")
+            return frozenset(self.hash_key(x) for x in v)
+        if isinstance(v, AObj):
+            if self.pm.has_cls(v._cls):
+                m = self.pm.method(self.pm.cls(v._cls), "__hash__")
+                if m is not None:
+                    return ("obj", v._cls, self.call(m, [v]))
+            return ("id", id(v))
+        if isinstance(v, EnumVal):
+            return ("enum", v.cls, v.name)
+        return v
+
+    def _lt(self, a: Any, b: Any) -> bool:
+        if isinstance(a, AObj) and self.pm.has_cls(a._cls):
+            m = self.pm.method(self.pm.cls(a._cls), "__lt__")
+            if m is None:
+                raise AbsRaise(f"TypeError: '<' not supported between {a._cls} instances")
+            return self.truth(self.call(m, [a, b]))
+        if isinstance(a, AObj) or isinstance(b, AObj):
+            raise AbsRaise("TypeError: '<' between abstract object and value")
+        if isinstance(a, (tuple, list)) and isinstance(b, (tuple, list)):
+            for x, y in zip(a, b):
+                if self._lt(x, y):
+                    return True
+                if self._lt(y, x):
+                    return False
+            return len(a) < len(b)
+        try:
+            return a < b
+        except TypeError as exc:
+            raise AbsRaise(f"TypeError: {exc}") from exc
+
+    def _sort(self, seq: list[Any], keyed: bool) -> list[Any]:
+        """Stable insertion sort using the analysed classes' own __lt__ (as list.sort does)."""
+        out: list[Any] = []
+        for item in seq:
+            k = item[0] if keyed else item
+            i = len(out)
+            while i > 0 and self._lt(k, out[i - 1][0] if keyed else out[i - 1]):
+                i -= 1
+            out.insert(i, item)
+        return [x[1] for x in out] if keyed else out
 
     def _apply(self, f: Any, x: Any) -> Any:
         if isinstance(f, Lambda):
@@ -812,7 +870,7 @@ class Interp:
 
 
 _MISSING = object()
-_BUILTINS = {"len", "any", "all", "sum", "next", "isinstance", "list", "tuple", "set", "sorted",
+_BUILTINS = {"hash", "id", "len", "any", "all", "sum", "next", "isinstance", "list", "tuple", "set", "sorted",
              "str", "bool", "int", "min", "max", "enumerate", "zip", "range", "hasattr",
              "callable", "float", "abs", "dict", "frozenset", "cast"}
 
